@@ -262,14 +262,19 @@ def walk_no_nested(node):
         todo.extend(ast.iter_child_nodes(n))
 
 
+EXPENSIVE_RULES = {"C13.R7"}  # rules that are skipped in an included run unless they are what is included
+
+
 def include_rules(chk, rule, module, rule_ids, what):
     """Re-run rules of another property's module on the same program and fold their findings into `rule`
     (used where one property's clause *is* another property's rule)."""
     # (the included module is run once per program and tier, whatever the number of includes that draw on it)
     cache = chk.prog.__dict__.setdefault("_included_runs", {})
-    ckey = (module.__name__, chk.tier)
+    costly = tuple(sorted(r for r in rule_ids if r in EXPENSIVE_RULES))
+    ckey = (module.__name__, chk.tier, costly)
     if ckey not in cache:
         sub = Check(chk.prop, chk.prog, tier=chk.tier, seed=chk.seed)
+        sub.included_for = set(rule_ids)  # a module may skip an expensive rule nobody asked for (Check.wanted)
         err = None
         try:
             module.run(sub)
